@@ -689,6 +689,16 @@ Proof. intros k c r x v; unfold base, ar; destruct (c_hasparam c) eqn:E, x; simp
 Lemma firstn_base : forall k c r, firstn (blen c) (base k c ++ r) = base k c.
 Proof. intros; apply firstn_exact. symmetry; apply base_len. Qed.
 
+Lemma base_ext : forall k c c',
+  c_hasparam c' = c_hasparam c -> c_param c' = c_param c -> c_locals c' = c_locals c -> base k c' = base k c.
+Proof. intros k c c' H1 H2 H3. unfold base. now rewrite H1, H2, H3. Qed.
+
+Lemma base_new : forall k c, c_locals c = nil_locals ->
+  base k c = VClosure k :: (if c_hasparam c then [c_param c] else []) ++ [VNil; VNil; VNil].
+Proof. intros k c H. unfold base. rewrite H. reflexivity. Qed.
+
+Opaque base.
+
 (* inv_S only looks at statuses and back links *)
 Lemma inv_S_ext : forall cur co co',
   (forall k, c_status (co' k) = c_status (co k) /\ c_back (co' k) = c_back (co k)) ->
@@ -838,9 +848,6 @@ Proof.
     + destruct (Hoth k) as [Hsk _]; auto. rewrite Hsk in Ha. auto.
 Qed.
 
-Lemma base_set_dst_none : forall k c, base k (set_locals (set_dst None VNil (c_locals c)) c) = base k c.
-Proof. reflexivity. Qed.
-
 (* the resumed fiber stores the value found in its top slot: helper Return (if any), SetLocal, Pop *)
 Lemma settle_store : forall vm b c extra hfr top d code v f0,
   current vm = Some b -> fibers vm b = f_poke0 v f0 ->
@@ -856,23 +863,450 @@ Proof.
   intros vm b c extra hfr top d code v f0 Hcur Hfib Har Hstk Hfr Hok.
   unfold settle. rewrite Hcur, Hfib.
   destruct Hok as [[-> ->]|(h & bb & ->)].
-  - simpl in Hstk, Hfr. simpl. rewrite Hfr. simpl.
+  - rewrite app_nil_l in Hstk. simpl in Hfr. simpl. rewrite Hfr. simpl.
     eexists. split; [reflexivity|]. simpl. rewrite upd_same.
     split; [exact Hcur|]. split; [reflexivity|]. split; [intros k Hk; now rewrite upd_other by auto|].
     unfold store_top, f_peek, f_pop, f_poke0, slot_of. simpl. rewrite Hstk, removelast_snoc, peek_snoc, Har.
     destruct d as [x|]; simpl.
-    + rewrite set_nth_local, removelast_snoc. repeat split; reflexivity.
-    + rewrite removelast_snoc. repeat split; reflexivity.
+    + rewrite set_nth_local, removelast_snoc. repeat split; auto.
+    + rewrite removelast_snoc. repeat split; auto.
   - simpl in Hfr. simpl. rewrite Hfr. simpl.
     unfold return_impl. rewrite Hcur, Hfib. simpl. rewrite Hfr. simpl.
     eexists. split; [reflexivity|]. simpl. rewrite !upd_same.
     split; [exact Hcur|]. split; [reflexivity|]. split; [intros k Hk; now rewrite !upd_other by auto|].
     unfold store_top, f_peek, f_pop, f_poke0, f_push, f_truncate, slot_of. simpl.
-    rewrite Hstk, removelast_app2, peek_app2, removelast_snoc, firstn_base, Har, peek_snoc.
+    rewrite Hstk, removelast_app2, !removelast_snoc, !peek_snoc, firstn_base, Har, ?peek_snoc.
     destruct d as [x|]; simpl.
-    + rewrite set_nth_local, removelast_snoc. repeat split; reflexivity.
-    + rewrite removelast_snoc. repeat split; reflexivity.
+    + rewrite set_nth_local, removelast_snoc. repeat split; auto.
+    + rewrite removelast_snoc. repeat split; auto.
 Qed.
+
+(* an exception raised in the running fiber: caught by its innermost handler, or the run ends *)
+Lemma raise_sim : forall s m co1 fibs2 hdl st1 junk exc ip0 b0 hfr,
+  R s m ->
+  (forall k, k <> s_cur s -> co1 k = s_co s k) ->
+  c_status (co1 (s_cur s)) = SRunning -> c_back (co1 (s_cur s)) = c_back (s_co s (s_cur s)) ->
+  c_hasparam (co1 (s_cur s)) = c_hasparam (s_co s (s_cur s)) ->
+  c_param (co1 (s_cur s)) = c_param (s_co s (s_cur s)) ->
+  c_locals (co1 (s_cur s)) = c_locals (s_co s (s_cur s)) ->
+  c_handlers (co1 (s_cur s)) = c_handlers (s_co s (s_cur s)) ->
+  (forall k, k <> s_cur s -> fibs2 k = fibers (m_vm m) k) ->
+  stack (fibs2 (s_cur s)) = base (s_cur s) (s_co s (s_cur s)) ++ junk ++ [exc] ->
+  frames (fibs2 (s_cur s)) = hfr ++ [bframe (s_cur s) ip0 b0] ->
+  handlers (fibs2 (s_cur s)) = hrel (s_co s (s_cur s)) ->
+  caller (fibs2 (s_cur s)) = c_back (s_co s (s_cur s)) ->
+  call_arity (fibs2 (s_cur s)) = ar (s_co s (s_cur s)) ->
+  m_caps st1 = m_caps m -> m_out st1 = m_out m ->
+  sim_result (s_raise (mkS (s_cur s) co1 (s_caps s) (s_out s)) exc)
+             (after_unwind st1 (unwind_stack (mkVm (Some (s_cur s)) fibs2 hdl))).
+Proof.
+  intros s m co1 fibs2 hdl st1 junk exc ip0 b0 hfr HR Hco Hst Hbk Hhp Hpa Hlo Hha Hfi Hstk Hfr Hhs Hcal Har Hcaps Hout.
+  pose proof HR as (R1 & R2 & R3 & R4 & R5).
+  unfold s_raise, unwind_stack, after_unwind. simpl. rewrite Hha, Hhs. unfold hrel.
+  assert (Hpk : f_peek 0 (fibs2 (s_cur s)) = exc) by (unfold f_peek; rewrite Hstk; apply peek_app2).
+  destruct (c_handlers (s_co s (s_cur s))) as [|h hs] eqn:Hh; simpl.
+  - rewrite Hpk. reflexivity.
+  - rewrite upd_same. unfold s_emit, s_upd_cur, set_co. simpl. rewrite Hcaps, Hout, <- R2.
+    unfold f_peek, f_pop, f_push, f_truncate, save_ip. simpl. rewrite Hstk, Hfr, firstn_base, lastn_one. simpl.
+    rewrite peek_snoc, removelast_snoc, ?peek_app2.
+    eapply R_local; [exact HR|upds|intros k Hk; rewrite upd_other by auto; apply Hco; auto|upds
+      |intros k Hk; simpl; rewrite !upd_other by auto; apply Hfi; auto|simpl; auto|simpl; auto| |].
+    + apply fiber_rel_running_intro; simpl; auto.
+      * unfold ar; simpl. rewrite Hhp. exact Har.
+      * congruence.
+      * symmetry. apply base_ext; simpl; auto.
+      * unfold hrel, blen, ar. simpl. now rewrite Hhp.
+    + intros k. destruct (Nat.eq_dec k (s_cur s)) as [->|Hk].
+      * rewrite upd_same. destruct R3 as (I1 & _).
+        eapply cap_rel_running; [exact I1| | |apply R5]; simpl; auto.
+      * rewrite upd_other by auto. rewrite Hco by auto. apply R5.
+Qed.
+
+(* the running fiber has handed v back to its caller b (yield, or return of its last frame):
+   b stores v and continues *)
+Lemma handback_switch : forall s m co2 st v b d vm3 st1,
+  R s m ->
+  (forall k, k <> s_cur s -> co2 k = s_co s k) ->
+  c_status (co2 (s_cur s)) = SRunning -> c_back (co2 (s_cur s)) = Some b ->
+  c_back (s_co s (s_cur s)) = Some b -> ~ active st ->
+  c_status (s_co s b) = SCalling d ->
+  current vm3 = Some b -> fibers vm3 b = f_poke0 v (fibers (m_vm m) b) ->
+  (forall k, k <> s_cur s -> k <> b -> fibers vm3 k = fibers (m_vm m) k) ->
+  fiber_rel (s_cur s) (set_fresh false (set_back None (set_status st (co2 (s_cur s))))) (fibers vm3 (s_cur s)) ->
+  (forall k, k <> s_cur s -> m_caps st1 k = m_caps m k) ->
+  cap_rel (set_fresh false (set_back None (set_status st (co2 (s_cur s))))) (s_caps s (s_cur s)) (m_caps st1 (s_cur s)) ->
+  m_out st1 = m_out m ->
+  sim_result (of_sres (mkS (s_cur s) co2 (s_caps s) (s_out s)) (s_handback (mkS (s_cur s) co2 (s_caps s) (s_out s)) v st))
+             (after_switch st1 (s_cur s) vm3).
+Proof.
+  intros s m co2 st v b d vm3 st1 HR Hco Hst Hbk Hbk0 Hna Hsb Hcur3 Hfb Hoth Hme Hcaps Hcapme Hout.
+  pose proof HR as (R1 & R2 & R3 & R4 & R5). pose proof R3 as (I1 & I2 & I3 & I4 & I5).
+  assert (Hbme : b <> s_cur s) by (intros ->; congruence).
+  unfold s_handback. simpl. rewrite Hbk. rewrite (upd_other (s_cur s) b) by auto. rewrite Hco by auto. rewrite Hsb.
+  simpl. unfold after_switch. rewrite Hcur3.
+  pose proof (R4 b) as Hrb. unfold fiber_rel in Hrb. rewrite Hsb in Hrb.
+  destruct Hrb as (Harb & Hcalb & Hfreshb & Hhsb & t & extra & hfr & Hstkb & Hfrb & Hokb).
+  destruct (settle_store vm3 b (s_co s b) extra hfr (VFiber t) d (c_code (s_co s b)) v (fibers (m_vm m) b)
+              Hcur3 Hfb Harb Hstkb Hfrb Hokb)
+    as (vm' & Hset & Hcur' & Hhdl' & Hoth' & Hstk' & Hfr' & Hcal' & Har' & Hhs').
+  rewrite Hset. unfold R. simpl.
+  split; [exact Hcur'|]. split; [congruence|]. split; [|split].
+  - apply (inv_handback (s_cur s) b (s_co s) _ st); auto.
+    + rewrite upd_other by auto. rewrite upd_same. reflexivity.
+    + rewrite upd_other by auto. rewrite upd_same. reflexivity.
+    + rewrite upd_same. reflexivity.
+    + rewrite upd_same. simpl. reflexivity.
+    + intros k Hk1 Hk2. rewrite !upd_other by auto. rewrite Hco by auto. auto.
+  - intros k. destruct (Nat.eq_dec k b) as [->|Hkb].
+    + rewrite upd_same. unfold fiber_rel. simpl.
+      split; [rewrite Har'; exact Harb|]. split; [rewrite Hcal'; exact Hcalb|].
+      split; [rewrite Hstk'; apply base_ext; reflexivity|]. split; [rewrite Hfr', Hfreshb; reflexivity|].
+      rewrite Hhs'. exact Hhsb.
+    + rewrite upd_other by auto. rewrite Hoth' by auto. destruct (Nat.eq_dec k (s_cur s)) as [->|Hkme].
+      * rewrite upd_same. exact Hme.
+      * rewrite upd_other by auto. rewrite Hco, Hoth by auto. apply R4.
+  - intros k. destruct (Nat.eq_dec k b) as [->|Hkb].
+    + rewrite upd_same. rewrite Hcaps by auto.
+      pose proof (R5 b) as H5. unfold cap_rel in *. simpl.
+      destruct (s_caps s b), (m_caps m b) as [[slot|cv]|]; auto.
+      * destruct H5 as (H5a & _ & _). split; [exact H5a|]. split; discriminate.
+      * destruct H5 as [H5a _]. congruence.
+    + rewrite upd_other by auto. destruct (Nat.eq_dec k (s_cur s)) as [->|Hkme].
+      * rewrite upd_same. exact Hcapme.
+      * rewrite upd_other by auto. rewrite Hco, Hcaps by auto. apply R5.
+Qed.
+
+Lemma removelast_app3 : forall {A} (l e : list A) x y, removelast (l ++ e ++ [x; y]) = l ++ e ++ [x].
+Proof.
+  intros. change [x; y] with ([x] ++ [y]). rewrite !app_assoc. rewrite removelast_snoc. reflexivity.
+Qed.
+
+Lemma frames_save_ip_eq : forall ip f f', frames f = frames f' -> frames (save_ip ip f) = frames (save_ip ip f').
+Proof. intros ip f f' H. unfold save_ip. rewrite H. destruct (frames f') eqn:E; simpl; rewrite ?H, ?E; reflexivity. Qed.
+
+Definition argl (a : option value) : list value := match a with Some v => [v] | None => [] end.
+
+Lemma frames_save_ip_nonempty : forall ip f l x, frames (save_ip ip f) = l ++ [x] -> has_finished f = false.
+Proof.
+  intros ip f l x H. unfold save_ip in H. unfold has_finished. destruct (frames f) eqn:E; [|reflexivity].
+  rewrite E in H. destruct l; discriminate.
+Qed.
+
+(* Fiber.yield(arg?) executed by the running fiber, directly or inside the helper *)
+Lemma yield_sim : forall s m co2 fibs2 hdl st1 arg junk hfr ip dst,
+  R s m ->
+  (forall k, k <> s_cur s -> co2 k = s_co s k) ->
+  c_status (co2 (s_cur s)) = SRunning -> c_back (co2 (s_cur s)) = c_back (s_co s (s_cur s)) ->
+  c_hasparam (co2 (s_cur s)) = c_hasparam (s_co s (s_cur s)) ->
+  c_param (co2 (s_cur s)) = c_param (s_co s (s_cur s)) ->
+  c_locals (co2 (s_cur s)) = c_locals (s_co s (s_cur s)) ->
+  c_handlers (co2 (s_cur s)) = c_handlers (s_co s (s_cur s)) ->
+  (forall k, k <> s_cur s -> fibs2 k = fibers (m_vm m) k) ->
+  stack (fibs2 (s_cur s)) = base (s_cur s) (s_co s (s_cur s)) ++ junk ++ VFiberClass :: argl arg ->
+  frames (save_ip ip (fibs2 (s_cur s))) = hfr ++ [bframe (s_cur s) (KStore dst (c_code (co2 (s_cur s)))) false] ->
+  helper_ok (blen (s_co s (s_cur s))) junk hfr ->
+  handlers (fibs2 (s_cur s)) = hrel (s_co s (s_cur s)) ->
+  caller (fibs2 (s_cur s)) = c_back (s_co s (s_cur s)) ->
+  call_arity (fibs2 (s_cur s)) = ar (s_co s (s_cur s)) ->
+  m_caps st1 = m_caps m -> m_out st1 = m_out m ->
+  sim_result (of_sres (mkS (s_cur s) co2 (s_caps s) (s_out s))
+                      (s_suspend (mkS (s_cur s) co2 (s_caps s) (s_out s)) (arg_or_nil arg) dst))
+             (of_nres st1 (s_cur s) (unload_fiber (mkVm (Some (s_cur s)) fibs2 hdl) arg ip)).
+Proof.
+  intros s m co2 fibs2 hdl st1 arg junk hfr ip dst HR Hco Hst Hbk Hhp Hpa Hlo Hha Hfi Hstk Hfr Hok Hhs Hcal Har Hcaps Hout.
+  pose proof HR as (R1 & R2 & R3 & R4 & R5). pose proof R3 as (I1 & I2 & I3 & I4 & I5).
+  unfold unload_fiber. simpl.
+  set (f1 := match arg with Some _ => f_pop (fibs2 (s_cur s)) | None => fibs2 (s_cur s) end).
+  assert (Hf1 : stack f1 = base (s_cur s) (s_co s (s_cur s)) ++ junk ++ [VFiberClass] /\
+                frames f1 = frames (fibs2 (s_cur s)) /\ handlers f1 = handlers (fibs2 (s_cur s)) /\
+                caller f1 = caller (fibs2 (s_cur s)) /\ call_arity f1 = call_arity (fibs2 (s_cur s))).
+  { unfold f1. destruct arg; simpl; rewrite Hstk; simpl; repeat split; auto. apply removelast_app3. }
+  destruct Hf1 as (Hs1 & Hfr1 & Hh1 & Hc1 & Ha1).
+  assert (Hfr1' : frames (save_ip ip f1) = hfr ++ [bframe (s_cur s) (KStore dst (c_code (co2 (s_cur s)))) false]).
+  { rewrite (frames_save_ip_eq ip f1 (fibs2 (s_cur s)) Hfr1). exact Hfr. }
+  rewrite (frames_save_ip_nonempty _ _ _ _ Hfr1').
+  rewrite caller_save_ip, Hc1, Hcal.
+  destruct (c_back (s_co s (s_cur s))) as [b|] eqn:Hb.
+  - (* hand back to b *)
+    destruct (I2 _ _ Hb) as [d Hd].
+    assert (Hbme : b <> s_cur s) by (intros ->; congruence).
+    unfold of_nres, s_suspend.
+    eapply handback_switch with (d := d); eauto.
+    + simpl. rewrite upd_same. rewrite upd_other by auto. rewrite Hfi by auto. reflexivity.
+    + intros k Hk1 Hk2. simpl. rewrite !upd_other by auto. apply Hfi; auto.
+    + simpl. rewrite (upd_other b (s_cur s)) by auto. rewrite upd_same.
+      unfold fiber_rel. simpl. split; [|split; [reflexivity|]].
+      * assert (Hx : call_arity (save_ip ip f1) = call_arity f1) by (unfold save_ip; destruct (frames f1); reflexivity).
+        rewrite Hx, Ha1, Har. unfold ar. simpl. now rewrite Hhp.
+      * split; [reflexivity|]. split.
+        -- assert (handlers (save_ip ip f1) = handlers f1) by (unfold save_ip; destruct (frames f1); reflexivity).
+           rewrite H, Hh1, Hhs. symmetry. apply hrel_ext; auto.
+        -- exists junk, hfr. split; [|split].
+           ++ assert (stack (save_ip ip f1) = stack f1) by (unfold save_ip; destruct (frames f1); reflexivity).
+              rewrite H, Hs1. f_equal. symmetry. apply base_ext; auto.
+           ++ exact Hfr1'.
+           ++ unfold blen, ar in *. simpl. rewrite Hhp. exact Hok.
+    + intros k Hk. now rewrite Hcaps.
+    + rewrite Hcaps. pose proof (R5 (s_cur s)) as H5. unfold cap_rel in *. simpl.
+      destruct (s_caps s (s_cur s)), (m_caps m (s_cur s)) as [[slot|cv]|]; auto.
+      * destruct H5 as (H5a & _ & _). unfold ar in *. simpl. rewrite Hhp. split; [exact H5a|]. split; discriminate.
+      * destruct H5 as [H5a _]. congruence.
+  - (* yield outside any fiber *)
+    unfold s_suspend, s_handback. simpl. rewrite Hbk. simpl. unfold native_error, set_fiber. simpl. rewrite upd_same.
+    eapply raise_sim with (junk := junk) (hfr := hfr); eauto.
+    + congruence.
+    + intros k Hk. rewrite !upd_other by auto. apply Hfi; auto.
+    + rewrite upd_same. unfold f_poke0. simpl.
+      assert (stack (save_ip ip f1) = stack f1) by (unfold save_ip; destruct (frames f1); reflexivity).
+      rewrite H, Hs1, removelast_app2, <- app_assoc. reflexivity.
+    + rewrite upd_same. simpl. exact Hfr1'.
+    + rewrite upd_same. simpl.
+      assert (handlers (save_ip ip f1) = handlers f1) by (unfold save_ip; destruct (frames f1); reflexivity).
+      rewrite H, Hh1. exact Hhs.
+    + rewrite upd_same. simpl. rewrite caller_save_ip, Hc1, Hcal. congruence.
+    + rewrite upd_same. simpl.
+      assert (call_arity (save_ip ip f1) = call_arity f1) by (unfold save_ip; destruct (frames f1); reflexivity).
+      rewrite H, Ha1. exact Har.
+Qed.
+
+Lemma is_new_fresh : forall t ct ft, fiber_rel t ct ft -> is_new ft = c_fresh ct.
+Proof.
+  intros t ct ft H. unfold fiber_rel in H. destruct H as (_ & _ & H). unfold is_new.
+  destruct (c_status ct).
+  - destruct H as (-> & -> & _). reflexivity.
+  - destruct H as (_ & -> & _). reflexivity.
+  - destruct H as (-> & _ & t' & ex & hfr & _ & -> & [[_ ->]|(h & b & ->)]); reflexivity.
+  - destruct H as (-> & _ & ex & hfr & _ & -> & [[_ ->]|(h & b & ->)]); reflexivity.
+  - destruct H as (-> & ->). reflexivity.
+Qed.
+
+Lemma finished_done : forall t ct ft, fiber_rel t ct ft -> has_finished ft = is_done ct.
+Proof.
+  intros t ct ft H. unfold fiber_rel in H. destruct H as (_ & _ & H). unfold has_finished, is_done.
+  destruct (c_status ct).
+  - destruct H as (-> & _). reflexivity.
+  - destruct H as (_ & -> & _). reflexivity.
+  - destruct H as (_ & _ & t' & ex & hfr & _ & -> & _). destruct hfr; reflexivity.
+  - destruct H as (_ & _ & ex & hfr & _ & -> & _). destruct hfr; reflexivity.
+  - destruct H as (-> & _). reflexivity.
+Qed.
+
+(* a new fiber that has just been loaded declares its three locals *)
+Lemma settle_new : forall vm t f0 code,
+  current vm = Some t -> fibers vm t = f0 -> frames f0 = [bframe t (KBody code) true] ->
+  exists vm', settle vm = Some vm' /\ current vm' = Some t /\ handling vm' = handling vm /\
+    (forall k, k <> t -> fibers vm' k = fibers vm k) /\
+    stack (fibers vm' t) = stack f0 ++ [VNil; VNil; VNil] /\
+    frames (fibers vm' t) = frames f0 /\
+    caller (fibers vm' t) = caller f0 /\ call_arity (fibers vm' t) = call_arity f0 /\
+    handlers (fibers vm' t) = handlers f0.
+Proof.
+  intros vm t f0 code Hcur Hfib Hfr. unfold settle. rewrite Hcur, Hfib, Hfr. simpl.
+  eexists. split; [reflexivity|]. simpl. rewrite upd_same.
+  split; [exact Hcur|]. split; [reflexivity|]. split; [intros k Hk; now rewrite upd_other by auto|].
+  unfold prologue, f_push. simpl. rewrite <- !app_assoc. simpl. repeat split; auto.
+Qed.
+
+Lemma stack_save_ip : forall ip f, stack (save_ip ip f) = stack f.
+Proof. intros; unfold save_ip; destruct (frames f); reflexivity. Qed.
+Lemma handlers_save_ip : forall ip f, handlers (save_ip ip f) = handlers f.
+Proof. intros; unfold save_ip; destruct (frames f); reflexivity. Qed.
+Lemma arity_save_ip : forall ip f, call_arity (save_ip ip f) = call_arity f.
+Proof. intros; unfold save_ip; destruct (frames f); reflexivity. Qed.
+
+Lemma peek_argl : forall (l e : list value) x a d, nth (List.length (argl a)) (rev (l ++ e ++ x :: argl a)) d = x.
+Proof.
+  intros l e x a d. destruct a as [v|]; simpl.
+  - change [x; v] with ([x] ++ [v]). rewrite !app_assoc, rev_unit. simpl. rewrite rev_unit. reflexivity.
+  - rewrite app_assoc, rev_unit. reflexivity.
+Qed.
+
+Lemma frames_unsave : forall ip f hfr k ip1,
+  frames (save_ip ip f) = hfr ++ [bframe k ip1 false] ->
+  exists hfr' ip0 b0, frames f = hfr' ++ [bframe k ip0 b0].
+Proof.
+  intros ip f hfr k ip1 H. unfold save_ip in H. destruct (frames f) as [|fr0 r0] eqn:E.
+  - rewrite E in H. destruct hfr; discriminate.
+  - simpl in H. destruct hfr as [|h hfr'']; simpl in H.
+    + inversion H; subst. exists [], (fr_ip fr0), (fr_fresh fr0). destruct fr0; simpl in *; subst; reflexivity.
+    + inversion H; subst. exists (fr0 :: hfr''), ip1, false. reflexivity.
+Qed.
+
+(* fk.call(arg?) executed by the running fiber, directly or inside the helper *)
+Lemma call_sim : forall s m co2 fibs2 hdl st1 t arg junk hfr ip dst,
+  R s m -> t <> 0 ->
+  (forall k, k <> s_cur s -> co2 k = s_co s k) ->
+  c_status (co2 (s_cur s)) = SRunning -> c_back (co2 (s_cur s)) = c_back (s_co s (s_cur s)) ->
+  c_hasparam (co2 (s_cur s)) = c_hasparam (s_co s (s_cur s)) ->
+  c_param (co2 (s_cur s)) = c_param (s_co s (s_cur s)) ->
+  c_locals (co2 (s_cur s)) = c_locals (s_co s (s_cur s)) ->
+  c_handlers (co2 (s_cur s)) = c_handlers (s_co s (s_cur s)) ->
+  (forall k, k <> s_cur s -> fibs2 k = fibers (m_vm m) k) ->
+  stack (fibs2 (s_cur s)) = base (s_cur s) (s_co s (s_cur s)) ++ junk ++ VFiber t :: argl arg ->
+  frames (save_ip ip (fibs2 (s_cur s))) = hfr ++ [bframe (s_cur s) (KStore dst (c_code (co2 (s_cur s)))) false] ->
+  helper_ok (blen (s_co s (s_cur s))) junk hfr ->
+  is_new (fibs2 (s_cur s)) = c_fresh (co2 (s_cur s)) ->
+  handlers (fibs2 (s_cur s)) = hrel (s_co s (s_cur s)) ->
+  caller (fibs2 (s_cur s)) = c_back (s_co s (s_cur s)) ->
+  call_arity (fibs2 (s_cur s)) = ar (s_co s (s_cur s)) ->
+  m_caps st1 = m_caps m -> m_out st1 = m_out m ->
+  sim_result (of_sres (mkS (s_cur s) co2 (s_caps s) (s_out s))
+                      (s_resume (mkS (s_cur s) co2 (s_caps s) (s_out s)) t (List.length (argl arg)) arg dst))
+             (of_nres st1 (s_cur s) (fiber_call true (mkVm (Some (s_cur s)) fibs2 hdl) (List.length (argl arg)) ip)).
+Proof.
+  intros s m co2 fibs2 hdl st1 t arg junk hfr ip dst HR Ht0 Hco Hst Hbk Hhp Hpa Hlo Hha Hfi Hstk Hfr Hok Hnew Hhs Hcal Har Hcaps Hout.
+  pose proof HR as (R1 & R2 & R3 & R4 & R5). pose proof R3 as (I1 & I2 & I3 & I4 & I5).
+  (* facts about the target as seen in the mid state *)
+  assert (Hrt : is_new (fibs2 t) = c_fresh (co2 t) /\ call_arity (fibs2 t) = ar (co2 t) /\
+                has_finished (fibs2 t) = is_done (co2 t) /\ caller (fibs2 t) = c_back (co2 t)).
+  { destruct (Nat.eq_dec t (s_cur s)) as [->|Htme].
+    - repeat split; auto.
+      + rewrite Har. unfold ar. now rewrite Hhp.
+      + unfold is_done. rewrite Hst. apply (frames_save_ip_nonempty _ _ _ _ Hfr).
+      + congruence.
+    - rewrite Hfi, Hco by auto. pose proof (R4 t) as H4. repeat split.
+      + apply (is_new_fresh t); auto.
+      + apply H4.
+      + apply (finished_done t); auto.
+      + apply H4. }
+  destruct Hrt as (Hn & Ha & Hf & Hc).
+  unfold fiber_call. simpl. unfold f_peek at 1. rewrite Hstk, peek_argl.
+  unfold s_resume, arity_check. simpl. rewrite Hn, Ha.
+  assert (Harity : ar (co2 t) - 1 = nparams (c_hasparam (co2 t))) by (unfold ar, nparams; destruct (c_hasparam (co2 t)); reflexivity).
+  rewrite Harity.
+  (* the error path, shared *)
+  assert (Herr : forall e,
+    sim_result (s_raise (mkS (s_cur s) co2 (s_caps s) (s_out s)) (VErr e))
+               (after_unwind st1 (native_error (mkVm (Some (s_cur s)) fibs2 hdl) e))).
+  { intros e. unfold native_error, set_fiber. simpl.
+    destruct (frames_unsave _ _ _ _ _ Hfr) as (hfr' & ip0 & b0 & Hfr0).
+    eapply raise_sim with (junk := match arg with Some _ => junk ++ [VFiber t] | None => junk end) (hfr := hfr'); eauto.
+    + intros k Hk. rewrite upd_other by auto. apply Hfi; auto.
+    + rewrite upd_same. unfold f_poke0. simpl. rewrite Hstk. destruct arg; simpl.
+      * rewrite removelast_app3. rewrite <- !app_assoc. reflexivity.
+      * rewrite removelast_app2, <- app_assoc. reflexivity.
+    + rewrite upd_same. simpl. exact Hfr0.
+    + rewrite upd_same. exact Hhs.
+    + rewrite upd_same. exact Hcal.
+    + rewrite upd_same. exact Har. }
+  match goal with |- context [match ?b with Some e => SErr e | None => _ end] => set (bad := b) end.
+  assert (Hmarg : (if Nat.eqb (List.length (argl arg)) 1 then Some (f_peek 0 (fibs2 (s_cur s))) else None) = arg).
+  { destruct arg as [v|]; simpl; [|reflexivity]. unfold f_peek. rewrite Hstk. simpl.
+    change [VFiber t; v] with ([VFiber t] ++ [v]). rewrite !app_assoc, rev_unit. reflexivity. }
+  rewrite Hmarg.
+  destruct bad as [e|] eqn:Hbad; [apply Herr|].
+  assert (Hback_t : forall k, k <> s_cur s -> ~ active (c_status (s_co s k)) -> c_back (s_co s k) = None).
+  { intros k Hk Hna. destruct (c_back (s_co s k)) eqn:E; [|reflexivity]. exfalso. apply Hna. eapply I4; eauto. }
+  assert (Hff : first_failing (fibs2 t) load_checks =
+                if is_done (co2 t) then Some EFinished else if is_some (c_back (co2 t)) then Some EAlreadyCalled else None).
+  { unfold load_checks, first_failing, check_fails. rewrite Hf, Hc.
+    destruct (is_done (co2 t)); [reflexivity|]. destruct (c_back (co2 t)); reflexivity. }
+  (* the calling fiber after a successful switch *)
+  set (fme' := save_ip ip match arg with Some _ => f_pop (fibs2 (s_cur s)) | None => fibs2 (s_cur s) end).
+  assert (Hme' : fiber_rel (s_cur s) (set_fresh false (set_status (SCalling dst) (co2 (s_cur s)))) fme').
+  { set (f1 := match arg with Some _ => f_pop (fibs2 (s_cur s)) | None => fibs2 (s_cur s) end).
+    assert (Hf1 : stack f1 = base (s_cur s) (s_co s (s_cur s)) ++ junk ++ [VFiber t] /\
+                  frames f1 = frames (fibs2 (s_cur s)) /\ handlers f1 = handlers (fibs2 (s_cur s)) /\
+                  caller f1 = caller (fibs2 (s_cur s)) /\ call_arity f1 = call_arity (fibs2 (s_cur s))).
+    { unfold f1. destruct arg; simpl; rewrite Hstk; simpl; repeat split; auto. apply removelast_app3. }
+    destruct Hf1 as (Hs1 & Hfr1 & Hh1 & Hc1 & Ha1).
+    unfold fiber_rel, fme'. fold f1. simpl.
+    rewrite arity_save_ip, caller_save_ip, handlers_save_ip, stack_save_ip, Ha1, Hc1, Hh1, Hs1, Har, Hcal, Hhs.
+    split; [unfold ar; simpl; now rewrite Hhp|]. split; [congruence|]. split; [reflexivity|].
+    split; [symmetry; apply hrel_ext; auto|].
+    exists t, junk, hfr. split; [f_equal; symmetry; apply base_ext; auto|]. split.
+    - rewrite (frames_save_ip_eq ip f1 (fibs2 (s_cur s)) Hfr1). exact Hfr.
+    - unfold blen, ar in *. simpl. rewrite Hhp. exact Hok. }
+  assert (Hcapme : cap_rel (set_fresh false (set_status (SCalling dst) (co2 (s_cur s)))) (s_caps s (s_cur s)) (m_caps m (s_cur s))).
+  { pose proof (R5 (s_cur s)) as H5. unfold cap_rel in *. simpl.
+    destruct (s_caps s (s_cur s)), (m_caps m (s_cur s)) as [[slot|cv]|]; auto.
+    - destruct H5 as (H5a & _ & _). unfold ar in *. simpl. rewrite Hhp. split; [exact H5a|]. split; discriminate.
+    - destruct H5 as [H5a _]. congruence. }
+  assert (Hfin : forall ct' vm' sched',
+    t <> s_cur s -> ~ active (c_status (s_co s t)) -> c_status (s_co s t) <> SDone ->
+    c_status ct' = SRunning -> c_back ct' = Some (s_cur s) -> c_hasparam ct' = c_hasparam (s_co s t) ->
+    current vm' = Some t -> (forall k, k <> t -> k <> s_cur s -> fibers vm' k = fibers (m_vm m) k) ->
+    fibers vm' (s_cur s) = fme' -> fiber_rel t ct' (fibers vm' t) ->
+    R (mkS t (upd t ct' (upd (s_cur s) (set_fresh false (set_status (SCalling dst) (co2 (s_cur s)))) co2)) (s_caps s) (s_out s))
+      (mkM vm' (m_caps st1) (m_out st1) sched')).
+  { intros ct' vm' sched' Htme Hna Hnd Hs' Hb' Hp' Hcur' Hoth' Hme'' Hrel'.
+    unfold R. simpl. split; [exact Hcur'|]. split; [congruence|]. split; [|split].
+    - apply (inv_resume (s_cur s) t (s_co s) _ dst); auto.
+      + rewrite upd_other by auto. rewrite upd_same. reflexivity.
+      + rewrite upd_other by auto. rewrite upd_same. simpl. exact Hbk.
+      + rewrite upd_same. exact Hs'.
+      + rewrite upd_same. exact Hb'.
+      + intros k Hk1 Hk2. rewrite !upd_other by auto. rewrite Hco by auto. auto.
+    - intros k. destruct (Nat.eq_dec k t) as [->|Hkt].
+      + rewrite upd_same. exact Hrel'.
+      + rewrite upd_other by auto. destruct (Nat.eq_dec k (s_cur s)) as [->|Hkme].
+        * rewrite upd_same, Hme''. exact Hme'.
+        * rewrite upd_other by auto. rewrite Hco, Hoth' by auto. apply R4.
+    - intros k. rewrite Hcaps. destruct (Nat.eq_dec k t) as [->|Hkt].
+      + rewrite upd_same. pose proof (R5 t) as H5. unfold cap_rel in *.
+        destruct (s_caps s t), (m_caps m t) as [[slot|cv]|]; auto.
+        * destruct H5 as (H5a & H5b & H5c). unfold ar in *. rewrite Hp', Hs'. split; [exact H5a|]. split; discriminate.
+        * destruct H5 as [H5a _]. contradiction.
+      + rewrite upd_other by auto. destruct (Nat.eq_dec k (s_cur s)) as [->|Hkme].
+        * rewrite upd_same. exact Hcapme.
+        * rewrite upd_other by auto. rewrite Hco by auto. apply R5. }
+  unfold load_fiber. simpl fibers at 1. rewrite Hff. unfold is_done.
+  destruct (c_status (co2 t)) eqn:Hstt.
+  - (* new *)
+    assert (Htme : t <> s_cur s) by (intros ->; congruence).
+    rewrite Hco in Hstt by auto. rewrite (Hco t) by auto.
+    rewrite (Hback_t t Htme) by (rewrite Hstt; auto). cbv iota. cbv beta zeta. simpl.
+    fold fme'. rewrite !(upd_other (s_cur s) t) by auto. rewrite (Hfi t) by auto.
+    pose proof (R4 t) as H4t. unfold fiber_rel in H4t. rewrite Hstt in H4t.
+    destruct H4t as (Hart & Hcalt & Hnewt & Hfresht & Hhandt & Hloct).
+    rewrite Hnewt. simpl.
+    (* the arity check passed: an argument is given iff the body has a parameter *)
+    assert (Harg : List.length (argl arg) = nparams (c_hasparam (s_co s t))).
+    { unfold bad in Hbad. rewrite (Hco t) in Hbad by auto. rewrite Hfresht in Hbad.
+      destruct (Nat.eqb_spec (List.length (argl arg)) (nparams (c_hasparam (s_co s t)))); [assumption|discriminate]. }
+    set (ft3 := match arg with
+                | Some a => f_push a (f_push (VClosure t) (set_caller (Some (s_cur s)) (new_fiber t (ar (s_co s t)) (c_code (s_co s t)))))
+                | None => f_push (VClosure t) (set_caller (Some (s_cur s)) (new_fiber t (ar (s_co s t)) (c_code (s_co s t))))
+                end).
+    set (vm3 := mkVm (Some t) (upd t ft3 (upd (s_cur s) fme' fibs2)) hdl).
+    assert (Hft3 : stack ft3 = VClosure t :: argl arg /\ frames ft3 = [bframe t (KBody (c_code (s_co s t))) true] /\
+                   caller ft3 = Some (s_cur s) /\ call_arity ft3 = ar (s_co s t) /\ handlers ft3 = []).
+    { unfold ft3. destruct arg; simpl; repeat split; reflexivity. }
+    destruct Hft3 as (Hs3 & Hf3 & Hc3 & Ha3 & Hh3).
+    destruct (settle_new vm3 t ft3 (c_code (s_co s t))) as (vm' & Hset & Hcur' & Hhdl' & Hoth' & Hstk' & Hfr' & Hcal' & Har' & Hhs').
+    { reflexivity. } { unfold vm3. simpl. now rewrite upd_same. } { exact Hf3. }
+    unfold of_nres, after_switch. change (current vm3) with (Some t). rewrite Hset. unfold of_sres, set_cur, set_co. simpl.
+    rewrite (Hco t) by auto.
+    apply Hfin; auto.
+    + rewrite Hstt. auto.
+    + rewrite Hstt. discriminate.
+    + intros k Hk1 Hk2. rewrite Hoth' by auto. unfold vm3. simpl. rewrite !upd_other by auto. apply Hfi; auto.
+    + rewrite Hoth' by auto. unfold vm3. simpl. rewrite upd_other by auto. now rewrite upd_same.
+    + unfold fiber_rel. simpl. rewrite Har', Hcal', Hstk', Hfr', Hhs', Ha3, Hc3, Hs3, Hf3, Hh3.
+      split; [reflexivity|]. split; [reflexivity|]. split; [|split].
+      * rewrite base_new by (simpl; exact Hloct). simpl.
+        unfold nparams in Harg. destruct (c_hasparam (s_co s t)), arg; simpl in *; try discriminate; reflexivity.
+      * rewrite Hfresht. reflexivity.
+      * unfold hrel. simpl. rewrite Hhandt. reflexivity.
+  - (* running: itself *)
+    assert (Hb : c_back (co2 t) <> None).
+    { destruct (Nat.eq_dec t (s_cur s)) as [->|Htme].
+      - rewrite Hbk. apply I5; auto. rewrite I1. exact I.
+      - rewrite Hco in * by auto. apply I5; auto. rewrite Hstt. exact I. }
+    destruct (c_back (co2 t)); [|congruence]. simpl. apply Herr.
+  - (* waiting in a call: re-entry *)
+    assert (Htme : t <> s_cur s) by (intros ->; congruence).
+    assert (Hb : c_back (co2 t) <> None).
+    { rewrite Hco in * by auto. apply I5; auto. rewrite Hstt. exact I. }
+    destruct (c_back (co2 t)); [|congruence]. simpl. apply Herr.
+  - (* suspended *)
+    assert (Htme : t <> s_cur s) by (intros ->; congruence).
+    rewrite Hco in Hstt by auto. rewrite (Hco t) by auto.
+    rewrite (Hback_t t Htme) by (rewrite Hstt; auto). cbv iota. cbv beta zeta.
+    admit.
+  - (* finished *)
+    simpl. apply Herr.
+Admitted.
 
 Lemma step_sim : forall p s m, R s m -> sim_result (step_S p s) (step_M true p m).
 Proof.
